@@ -22,6 +22,9 @@ func newIdxEngine(p *core.Prog) *core.IdxEngine {
 	e.Iface["SignSyncCommitteeRoots"] = core.IfaceSummary{ResultLike: map[int]int{0: 1}}
 	e.Iface["SignSyncCommitteeSelections"] = core.IfaceSummary{ResultLike: map[int]int{0: 1}, Groups: [][]int{{1, 3}}}
 	e.Iface["SignContributionAndProofs"] = core.IfaceSummary{ResultLike: map[int]int{0: 1}, Groups: [][]int{{1, 2}}}
+	e.Strict["services/attester/standard"] = true
+	e.Strict["services/signer/standard"] = true
+	e.Strict["services/beaconcommitteesubscriber/standard"] = true
 	// account manager multi-signers: SignBeaconAttestations / SignGenericMulti style are library calls (not analysed)
 	return e
 }
